@@ -208,6 +208,9 @@ fn one(rep: &mut Report, case: u64, rng: &mut Rng, dir: &PathBuf, small: bool) {
     for p in exp.keys() {
         reqs.push((p.clone(), "file-or-index"));
         reqs.push((format!("{}/", if p == "/" { "" } else { p }), "trailing-slash"));
+        // only ONE trailing slash is ignored (C01): two or three are doubled separators, i.e. another path
+        reqs.push((format!("{}//", if p == "/" { "" } else { p }), "doubled-trailing-slash"));
+        reqs.push((format!("{}///", if p == "/" { "" } else { p }), "doubled-trailing-slash"));
         reqs.push((format!("{p}x"), "name-extended"));
         if p.len() > 1 { reqs.push((p[..p.len() - 1].to_string(), "name-truncated")) }
         reqs.push((p.to_ascii_uppercase(), "case-variant"));
